@@ -4,6 +4,7 @@ pub mod interp;
 pub mod lexer;
 pub mod parser;
 pub mod resolve;
+pub mod validate;
 pub mod value;
 pub mod vectors;
 pub mod walk;
@@ -116,7 +117,7 @@ function EI(...) log("EI", ...) return ... end
 EG = 42
 local mt = {}
 local rets = {__index = {7}, __newindex = {}, __call = {1, 2}, __add = {11}, __sub = {12}, __mul = {13}, __div = {14},
-  __mod = {15}, __pow = {16}, __idiv = {17}, __unm = {21}, __concat = {"cc"}, __eq = {true}, __lt = {true}, __le = {false}}
+  __mod = {15}, __pow = {16}, __idiv = {17}, __unm = {21}, __concat = {"cc"}, __eq = {true}, __lt = {true}, __le = {false}, __tostring = {"ET"}}
 for name, r in pairs(rets) do
   mt[name] = function(...) log("mm:" .. name, ...) return unpack(r) end
 end
